@@ -12,8 +12,8 @@ import (
 func init() {
 	register(&Property{
 		Meta: PropMeta{
-			ID:    "C11",
-			Level: "other",
+			ID:          "C11",
+			Level:       "other",
 			Explanation: "Structural necessary conditions of 'values are converted exactly or rejected', decided on the SSA of /repo for all paths: (KIND) in convert each strconv parser is reachable for exactly its own kinds — ParseInt for the signed integer kinds, ParseUint for the unsigned, ParseFloat for the floats, ParseBool for Bool — as established by the kind tests dominating the call; (SIZE) the bit-size operand of every integer/float parse is retval.Type().Bits() and the base operand is the first result of getBase(options, 10); (EXACT-STORE) the value stored by SetInt/SetUint/SetFloat/SetBool/SetString is the parse result itself (no numeric conversion in between; time.Duration → int64 excepted); (ERR) after every strconv.Parse*, time.ParseDuration, getBase and recursive convert the non-nil error edge returns that very error and the store is reachable only on the nil edge; (MAP) the map syntax is strings.SplitN(val, \":\", 2) with key parts[0] and value parts[1] only under len(parts) == 2; (SLICE) a slice appends exactly the freshly converted element to the current value; (UNMARSHAL) convertUnmarshal is consulted before any kind dispatch and its ok result returns its error; (CHOICE) in Option.Set membership is string equality between an element of a loop over all of Option.Choices and the value, nothing else sets `found`, the failure is newErrorf(ErrInvalidChoice) listing Choices[0:len-1] and the last one, and conversion is reachable only with no choices, a nil value, or found.",
 			NotDecided:  "strconv's acceptance language (trusted base); leading-zero, whitespace and special-float policy; that the stored value equals the denoted one for every input (a value relation).",
 			Trusted:     []string{"go/ssa lowering", "go/types", "strconv.ParseInt/ParseUint/ParseFloat reject out-of-range values for the given bit size", "reflect Set* semantics"},
@@ -271,12 +271,28 @@ func runC11(c *Ctx, r *Report, tier string) {
 	_ = found
 	var trueRets []ssa.Instruction
 	for _, h := range c.newCallees(set) {
-		if h.Signature.Results().Len() != 1 || relType(c, h.Signature.Results().At(0).Type()) != "bool" {
+		if h.Signature.Results().Len() != 1 {
 			continue
 		}
-		for _, ret := range returnsOf(h) {
-			if c.term(ret.Results[0]) == "true" {
-				trueRets = append(trueRets, ret)
+		switch relType(c, h.Signature.Results().At(0).Type()) {
+		case "bool":
+			for _, ret := range returnsOf(h) {
+				if c.term(ret.Results[0]) == "true" {
+					trueRets = append(trueRets, ret)
+				}
+			}
+		case "error":
+			// a checking helper: `return nil` is its verdict "allowed"
+			if len(c.instrs(h, func(in ssa.Instruction) bool {
+				call, ok := in.(*ssa.Call)
+				return ok && c.calleeName(call.Common()) == "newErrorf" && c.term(call.Call.Args[0]) == "ErrInvalidChoice"
+			})) == 0 {
+				continue
+			}
+			for _, ret := range returnsOf(h) {
+				if isConstNil(ret.Results[0]) {
+					trueRets = append(trueRets, ret)
+				}
 			}
 		}
 	}
@@ -345,13 +361,15 @@ func runC11(c *Ctx, r *Report, tier string) {
 		r.Check(okList, "CHOICE", sn, "failure lists every allowed value", c.ipos(in), "Choices[0:len-1] joined plus the last", "the error message does not list all of Option.Choices")
 	}
 	for _, in := range c.instrs(set, c.isCallTo("convert", "(*Option).call")) {
-		_, ok := c.Requires(set, isInstr(in), anyLit(
+		cpath, ok := c.Requires(set, isInstr(in), anyLit(
 			litHas(false, "nonempty(Option.Choices(P0))"),
 			litHas(false, "nonnil(P1)"),
-			func(l Lit) bool { return l.Pos && strings.HasPrefix(l.Term, "phi{") && strings.Contains(l.Term, "true") },
+			func(l Lit) bool {
+				return l.Pos && strings.HasPrefix(l.Term, "phi{") && strings.Contains(l.Term, "true")
+			},
 			eqLit,
 		), nil)
-		r.Check(ok, "CHOICE", sn, "conversion only when the choice test allows it", c.ipos(in), "REQ(no choices ∨ nil value ∨ found)", "conversion is reachable for a value outside the declared choices")
+		r.Check(ok, "CHOICE", sn, "conversion only when the choice test allows it", c.ipos(in), "REQ(no choices ∨ nil value ∨ found)", "conversion is reachable for a value outside the declared choices: "+pathStr(cpath))
 	}
 }
 
